@@ -119,6 +119,7 @@ class Config:
         self.max_paths = 20000 if tier == "quick" else 400000
         self.validate_every = 1
         self.interval_first = False   # try to discharge inequalities by interval enclosure first
+        self.simplify_div = False     # t/t -> 1, 0/t -> 0 when t != 0 is implied (geometry harnesses)
         self.fresh_branches = False   # decide branches with fresh solvers instead of the incremental one
         self.bb_max_boxes = 20000
         self.slice_first = False      # try obligations on the cone of influence of the claim first
@@ -149,6 +150,7 @@ class Explorer:
             prefix = stack.pop()
             ctx = PathCtx(self, prefix, label, n)
             sym.set_cur(ctx)
+            sym.SIMPLIFY_DIV = bool(self.cfg.simplify_div)
             Session.active = True
             try:
                 out = harness(ctx, *args)
